@@ -297,7 +297,19 @@ def _plan_edits(case, queries, rng, cls):
         if len(nodes) > 2:
             kinds += ["remove_node"]
         op = rng.choice(kinds)
-        if op == "remove_edge":
+        if lat & nodes and len(nodes) > 2 and rng.random() < 0.35:
+            # a latent node is removed and a node of the same name is added again as an ordinary one
+            x = rng.choice(sorted(lat & nodes))
+            out.append({"op": "remove_node", "x": x})
+            out.append({"op": "graph"})
+            nodes.discard(x)
+            lat.discard(x)
+            edges = {e for e in edges if x not in e}
+            op = "add_node_again"
+        if op == "add_node_again":
+            out.append({"op": "add_node", "x": x, "incl": False})
+            nodes.add(x)
+        elif op == "remove_edge":
             x, y = rng.choice(sorted(edges))
             out.append({"op": op, "x": x, "y": y})
             edges.discard((x, y))
